@@ -49,6 +49,19 @@ bool consume(Token **rest, Token *tok, char *str) {
   return false;
 }
 void convert_pp_tokens(Token *tok) {}
+// referenced only by join_adjacent_string_literals()/read_line_marker() (not exercised): link-time stubs
+Token *tokenize_string_literal(Token *tok, Type *basety) { return tok; }
+Type *array_of(Type *base, int len) { return base; }
+// type.c objects that preprocess.c may name (eval_const_expr retypes #if operands)
+static Type verif_ty_int = {.kind = TY_INT, .size = 4, .align = 4};
+static Type verif_ty_uint = {.kind = TY_INT, .size = 4, .align = 4, .is_unsigned = true};
+static Type verif_ty_long = {.kind = TY_LONG, .size = 8, .align = 8};
+static Type verif_ty_ulong = {.kind = TY_LONG, .size = 8, .align = 8, .is_unsigned = true};
+Type *ty_int = &verif_ty_int, *ty_uint = &verif_ty_uint, *ty_long = &verif_ty_long, *ty_ulong = &verif_ty_ulong;
+bool is_integer(Type *ty) {
+  TypeKind k = ty->kind;
+  return k == TY_BOOL || k == TY_CHAR || k == TY_SHORT || k == TY_INT || k == TY_LONG || k == TY_ENUM;
+}
 #ifndef VERIF_CONST_EXPR
 #define VERIF_CONST_EXPR(tok) 0
 #endif
